@@ -93,7 +93,7 @@ Section Top.
     intros a Hb v tv. destruct a; try discriminate Hb.
     - (* bare builtin class *)
       apply (assert_of_raise (ACls c) v tv PTypeCheckC tv I); [|cbn; tauto].
-      cbn [is_inst]. unfold has_required, has_required_tables. cbn [ann_name negb]. unfold inst_cls, in_cls.
+      cbn [is_inst]. unfold has_required, has_required_tables. cbn [ann_name]. rewrite orb_true_r. cbn [negb]. unfold inst_cls, in_cls.
       rewrite (gf_bare_sup cfg good c); [reflexivity|].
       destruct c; try discriminate Hb; cbn; tauto.
     - (* bare typing generic *)
